@@ -58,12 +58,28 @@ def _cell_match(pattern, cell):
     return all(fnmatch.fnmatchcase(c, p) for p, c in zip(pp, cc))
 
 
+_CELLSETS = {}
+
+
+def _cellset(relpath):
+    """exact cells of a finding, one per line, committed under /verif/findings (read-only at run time)"""
+    if relpath not in _CELLSETS:
+        with open(os.path.join(common.VERIF, relpath)) as f:
+            _CELLSETS[relpath] = set(ln.rstrip("\n") for ln in f if ln.strip())
+    return _CELLSETS[relpath]
+
+
 def match_finding(findings, v):
     for f in findings:
         m = f["match"]
         if m.get("component") != v["component"]:
             continue
-        if m.get("symptom") != v["symptom"]:
+        syms = m["symptom"] if isinstance(m["symptom"], list) else [m["symptom"]]
+        if v["symptom"] not in syms:
+            continue
+        if "cells_file" in m:
+            if v["cell"] in _cellset(m["cells_file"]):
+                return f
             continue
         cells = m["cell"] if isinstance(m["cell"], list) else [m["cell"]]
         if any(_cell_match(p, v["cell"]) for p in cells):
@@ -152,7 +168,7 @@ def run(modname, tier, seed, out=sys.stdout):
         if f["hits"]:
             print("KNOWN-FINDING: property={} {} {} ({} cells, {} cases)".format(
                 prop, f["id"], f["text"], len(f["cells"]), f["hits"]), file=out)
-        elif tier == "thorough" or f["match"].get("tier", "quick") == "quick":
+        elif tier == "thorough":
             print("STALE-FINDING: property={} {} did not reproduce in this run ({})".format(
                 prop, f["id"], tier), file=out)
     shown = 0
